@@ -264,9 +264,12 @@ def status_body(r, k):
     """what the scripted server answers to a status request (status_message = position, as in the model)"""
     shape = r[2] if len(r) > 2 else None
     if isinstance(shape, list):      # explicit body (full machine): progress in quarters, times as integers or None
-        p, c, st, d = shape
-        return {"status": r[1], "progress": p / 4.0, "progress_message": "phase", "status_message": f"m{k}",
+        p, c, st, d = shape[:4]
+        body = {"status": r[1], "progress": p / 4.0, "progress_message": "phase", "status_message": f"m{k}",
                 "creation_datetime": c, "start_time": st, "duration": d}
+        for key in (shape[4] if len(shape) > 4 else ()):      # part 12: an answer lacking keys
+            body.pop(key, None)
+        return body
     if shape == "q":      # a job that never left the queue: nothing started, nothing measured
         return {"status": r[1], "progress": 0.0, "progress_message": None, "status_message": f"m{k}",
                 "creation_datetime": 1.0, "start_time": None, "duration": None}
@@ -2688,6 +2691,259 @@ def check_clocked_results(chk, world, n):
 
 
 # ------------------------------------------------------------------------------------------------
+# ------------------------------------------------------------------------------------------------
+# part 12: status answers by SHAPE (Model/C17W.lean: `readStatusW`) — the full machine, scripted clock, the
+# throttle transparent; the answer to a "pw" read is a JSON object lacking the keys listed in its fifth field
+# ------------------------------------------------------------------------------------------------
+DROPPABLE = ["status", "progress", "progress_message", "status_message"]
+W_BRANCHES = ["W-keyerror-no-status", "W-keyerror-progress", "W-keyerror-phase", "W-keyerror-message-final",
+              "W-irrelevant-drop-read", "W-silent-after-malformed-final", "W-absorbed-after-malformed",
+              "W-guard-after-keyerror", "W-keyerror-on-streak", "W-streak-judged"]
+
+
+def raw_to_lean(r):
+    if r[0] != "s":
+        return r
+    p, c, st, d, drops = r[2]
+    return ["sw", None if "status" in drops else r[1], None if "progress" in drops else p,
+            "progress_message" not in drops, "status_message" not in drops, c, st, d]
+
+
+def wops_request(hist):
+    return {"fixed": True, "t0": hist["t0"], "name": hist["name"],
+            "wops": [[t, (["pw", o[1], raw_to_lean(o[2])] if o[0] == "pw" else o)] for t, o in hist["wops"]]}
+
+
+def run_wops(world, clock, hist):
+    """-> (outs, hits, tags): one history of the full machine with shaped status answers on the real code"""
+    clock.now = float(hist["t0"])
+    job = world.RemoteJob({"payload": {}}, world.handler, hist["name"])
+    outs, hits, tags = [], [], set()
+    creates = 0
+    final = None            # final status the object has shown
+    lo = hi = 0             # failed status requests in a row: since the last 200 answer / the last complete 200 answer
+    last_keyerror = False
+    malformed_final = False
+    for k, (t, op) in enumerate(hist["wops"], 1):
+        clock.now = float(t)
+        kind = op[0]
+        sent_before = cid(job) != "N"
+        prev = shown(job)
+        if kind == "pw":
+            world.begin(k, [op[2]], None)
+            try:
+                v = op[1]
+                res = ("st:" + job.status()) if v == 0 else ("flag:1" if getattr(job, VIEWS[v]) else "flag:0")
+            except Exception as e:  # noqa: BLE001
+                res = exc_str(world, e, "p")
+            new_job = None
+        else:
+            res, new_job = do_op(world, job, k, op)
+        calls, served = list(world.calls), list(world.served)
+        # ---- direct oracles: the property statement on the real trace
+        nc = calls.count("C")
+        if nc and creates + nc > 1:
+            hits.append(("sent-twice", k, f"step {k}: create_job called again for a job object already submitted"))
+        creates += nc
+        nstatus = sum(1 for c in calls if c[0] == "S")
+        if final is not None and nstatus:
+            hits.append(("polled-after-final", k, f"step {k}: status request sent although the job had shown {final}"))
+        if sent_before and final is None and kind != "x" and not nstatus:
+            hits.append(("stopped-polling-before-final", k,
+                         f"step {k}: {OP_NAME.get(kind, 'the status read')} on job {job.id} showing {prev} (not final) "
+                         f"sent no status request (result {res})"))
+        if kind in ("p", "pw") and sent_before and final is None and nstatus != 1:
+            hits.append(("status-read-request-count", k, f"step {k}: a status read sent {nstatus} status requests"))
+        for i, r in enumerate(served):
+            is_last = i == len(served) - 1
+            if r[0] == "s":
+                drops = r[2][4] if len(r) > 2 and isinstance(r[2], list) and len(r[2]) > 4 else []
+                lo = 0
+                if not drops:
+                    hi = 0
+                    if is_last and res == "exc:KeyError":
+                        hits.append(("unexpected-exception", k,
+                                     f"step {k}: KeyError on a status answer that carries every key"))
+                continue
+            lo += 1
+            hi += 1
+            fatal = r[0] == "h" and r[1] not in TRANSIENT
+            want = "exc:ConnectionError" if r[0] == "c" else f"exc:HTTPError:{r[1]}"
+            did_raise = is_last and calls[-1][0] == "S" and res == want
+            if fatal or lo > MAX_ABSORBED:         # whatever a malformed 200 answer counts for: must be raised
+                tags.add("W-streak-judged")
+                if not did_raise:
+                    hits.append(("fatal-http-absorbed" if fatal and lo <= MAX_ABSORBED else "streak-absorbed-after-max",
+                                 k, f"step {k}: failed status request number {lo} ({want[4:]}) was not raised "
+                                    f"(result {res})"))
+            elif hi <= MAX_ABSORBED:               # … must be absorbed
+                tags.add("W-streak-judged")
+                if did_raise:
+                    hits.append(("transient-not-absorbed", k,
+                                 f"step {k}: transient failure number {hi} of the status request was raised ({res})"))
+            elif not did_raise:
+                tags.add("W-absorbed-after-malformed")   # the code's reading: the malformed answer restarted the count
+        if res.startswith("exc:") and not res.startswith(("exc:HTTPError", "exc:ConnectionError", "exc:RuntimeError",
+                                                          "exc:ScriptExhausted", "exc:KeyError", "exc:TypeError")) \
+                and not (kind == "x" and res == "exc:AssertionError"):
+            hits.append(("unexpected-exception", k, f"step {k}: the call raised {res[4:]}"))
+        # ---- coverage
+        if kind == "pw" and op[2][0] == "s":
+            drops = op[2][2][4]
+            if res == "exc:KeyError":
+                if "status" in drops:
+                    tags.add("W-keyerror-no-status")
+                elif shown(job) in ("RUNNING", "CANCEL_REQUESTED"):
+                    tags.add("W-keyerror-progress" if "progress" in drops else "W-keyerror-phase")
+                elif shown(job) in FAILED_NAMES:
+                    tags.add("W-keyerror-message-final")
+                    malformed_final = True
+                if hi > 0:
+                    tags.add("W-keyerror-on-streak")
+            elif drops and served:
+                tags.add("W-irrelevant-drop-read")
+        if kind in ("p", "pw") and malformed_final and not calls and final is not None:
+            tags.add("W-silent-after-malformed-final")
+        if last_keyerror and kind in ("c", "r", "g"):
+            tags.add("W-guard-after-keyerror")
+        last_keyerror = res == "exc:KeyError"
+        if kind == "r" and new_job is not None and op[4]:
+            job, creates, final, lo, hi, malformed_final = new_job, 1, None, 0, 0, False
+        sh = shown(job)
+        if final is not None and sh != final:
+            hits.append(("final-status-changed", k, f"step {k}: status shown went from {final} to {sh}"))
+        if sh in FINAL_NAMES and cid(job) != "N":
+            final = sh
+        outs.append(f"{res}|{cid(job)}|{sh}|{','.join(calls)}" + full_suffix(world, job))
+    if world.anomalies:
+        hits.append(("handler-glue", 0, world.anomalies[0]))
+        world.anomalies = []
+    return outs, hits, tags
+
+
+def rand_raw_answer(rng, fail_p):
+    x = rng.random()
+    if x < fail_p:
+        y = rng.random()
+        return CONN if y < 0.5 else H(rng.choice(TRANSIENT)) if y < 0.9 else H(rng.choice([400, 404, 500, 503]))
+    s = rng.choice(CANON) if rng.random() < 0.85 else rng.choice(ODD)
+    start = rng.choice([None, 0, 2, 7])
+    dur = rng.choice([None, 0, 3]) if (start or rng.random() < 0.1) else None
+    body = [rng.randrange(0, 5), rng.choice([None, 0, 1, 5]), start, dur]
+    y = rng.random()
+    if y < 0.35:
+        drops = []
+    elif y < 0.8:
+        drops = [rng.choice(DROPPABLE)]
+    else:
+        drops = sorted(rng.sample(DROPPABLE, rng.choice([2, 3, 4])))
+    return ["s", s, body + [drops]]
+
+
+def gen_wops(rng):
+    t = 10
+    wops = []
+    if rng.random() < 0.92:
+        wops.append([t, ["x", OK]])
+    elif rng.random() < 0.5:
+        wops.append([t, ["x", H(400)]])
+    fail_p = rng.choice([0.1, 0.25, 0.6, 0.8])
+    for _ in range(rng.randrange(2, 15)):
+        t += rng.choice([0, 1, 2, 5, 12])
+        x = rng.random()
+        if x < 0.6:
+            op = ["pw", rng.randrange(0, 6), rand_raw_answer(rng, fail_p)]
+        elif x < 0.72:
+            op = ["p", rng.randrange(0, 6), rand_answer_full(rng, fail_p, True)]
+        elif x < 0.8:
+            op = ["c", rand_answer_full(rng, fail_p, True), rand_h(rng)]
+        elif x < 0.88:
+            op = ["r", rand_answer_full(rng, fail_p, True), rand_answer_full(rng, fail_p, True), rand_h(rng),
+                  rng.random() < 0.5]
+        elif x < 0.96:
+            op = ["g", rand_answer_full(rng, fail_p, True), rand_answer_full(rng, fail_p, True), rand_rh(rng)]
+        else:
+            op = ["x", rand_h(rng)]
+        wops.append([t, op])
+    return {"t0": 10, "name": rng.choice(NAMES), "wops": wops}
+
+
+def wops_alphabet():
+    b = [2, 5, 2, None]
+    return [["pw", 0, ["s", "running", b + [["progress"]]]], ["pw", 5, ["s", "cancel_requested", b + [["progress_message"]]]],
+            ["pw", 0, ["s", "error", [4, 5, 2, 3, ["status_message"]]]], ["pw", 1, ["s", "canceled", b + [["status_message"]]]],
+            ["pw", 0, ["s", "waiting", b + [["status"]]]],
+            ["pw", 0, ["s", "completed", [4, 5, 2, 3, ["progress", "progress_message", "status_message"]]]],
+            ["pw", 4, ["s", "waiting", b + [["progress", "status_message"]]]], ["pw", 0, ["s", "running", b + [[]]]],
+            ["pw", 0, CONN], ["pw", 0, H(429)],
+            ["c", ["s", "waiting", [0, 1, None, None]], OK], ["g", CONN, CONN, ["missing"]],
+            ["r", CONN, CONN, OK, True]]
+
+
+def judge_wops(chk, world, clock, hist, lean_outs=None):
+    outs, hits, tags = run_wops(world, clock, hist)
+    if lean_outs is None:
+        rep = chk.lean.ask(wops_request(hist))
+        if "err" in rep:
+            return ("broken", "driver-rejects", f"Lean driver rejected the shaped history: {rep['err']}",
+                    {"whist": hist}), tags
+        lean_outs = rep["outs"]
+    if hits:
+        sig, k, what = hits[0]
+        return ("violation", sig, what, {"whist": hist, "real": outs, "model": lean_outs}), tags
+    i = next((i for i, (x, y) in enumerate(zip(outs, lean_outs)) if x != y), None)
+    if i is not None:
+        return ("broken", "shaped-model-vs-code",
+                f"step {i + 1} ({hist['wops'][i][1]}): real code gives {outs[i]!r}, model gives {lean_outs[i]!r}; "
+                f"no direct oracle fails", {"whist": hist, "real": outs, "model": lean_outs}), tags
+    return None, tags
+
+
+def report_whist(chk, world, clock, r):
+    kind, sig, what, rep = r
+    seen = chk.extra.setdefault("_reported", set())
+    if (kind, sig) in seen:
+        return
+    seen.add((kind, sig))
+    hist = rep["whist"]
+    small = shrink_list(lambda ws: judge_wops(chk, world, clock, dict(hist, wops=ws)), hist["wops"], sig)
+    r2, _ = judge_wops(chk, world, clock, dict(hist, wops=small))
+    if r2 is not None and r2[1] == sig:
+        kind, sig, what, rep = r2
+    chk.fail(kind, sig, what, rep)
+
+
+def check_shaped(chk, world, n):
+    t0 = time.time()
+    hists = [dict(h) for h in load_corpus("whist")]
+    hists += [gen_wops(chk.rng) for _ in range(n)]
+    alpha = wops_alphabet()
+    nex = 0
+    for L in range(1, 4):
+        for combo in itertools.product(alpha, repeat=L):
+            hists.append({"t0": 10, "name": "verif", "exh": True,
+                          "wops": [[10, ["x", OK]]] + [[15 + 5 * i, o] for i, o in enumerate(combo)]})
+            nex += 1
+    reps = chk.lean.ask_many([wops_request(h) for h in hists])
+    with fullclock(world) as clock:
+        for h, rep in zip(hists, reps):
+            exh = h.pop("exh", False)
+            chk.evaluations += 1
+            chk.count("source", "shaped-exhaustive" if exh else "shaped-random")
+            if "err" in rep:
+                chk.fail("broken", "driver-rejects", rep["err"], {"whist": h})
+                continue
+            r, tags = judge_wops(chk, world, clock, h, rep["outs"])
+            for t in tags:
+                chk.branch(t)
+            chk.case("W" + json.dumps(h["wops"]), any(o[0] == "pw" for _, o in h["wops"]),
+                     None if exh else {"source": "shaped", "len": len(h["wops"]), "wops": h["wops"][:4]})
+            if r is not None:
+                report_whist(chk, world, clock, r)
+    chk.extra["shaped_answers"] = {"random_histories": n, "exhaustive_histories": nex, "letters": len(alpha),
+                                   "seconds": round(time.time() - t0, 1)}
+
+
 def load_corpus(key="ops"):
     out = []
     for p in sorted(glob.glob(os.path.join(core.VERIF, "corpus", "C17", "*.json"))):
@@ -2750,7 +3006,9 @@ def setup(chk):
         # the results machine and the clocked operations (Model/C17R.lean)
         *R_BRANCHES, *K_BRANCHES,
         # results under the throttle, re-creation under the clock (Model/C17Y.lean)
-        *Y_BRANCHES]
+        *Y_BRANCHES,
+        # status answers by shape (Model/C17W.lean)
+        *W_BRANCHES]
     return World()
 
 
@@ -2851,6 +3109,9 @@ def run(chk: core.Check):
     # 11. results on the content of the answer under the real throttle; _from_dict(_to_dict()) / from_id under the clock
     check_clocked_results(chk, world, chk.pick(2000, 12000))
     lap("clocked-results")
+    # 12. status answers lacking keys (KeyError out of the status read: not absorbed, not counted, status stored)
+    check_shaped(chk, world, chk.pick(1500, 10000))
+    lap("shaped-answers")
     chk.extra["distinct_nontrivial"] = len(chk.sigs) + nontriv
     chk.extra["distinct_histories"] = len(chk.sigs) + distinct
     chk.extra["section_seconds"] = tsec
@@ -2867,6 +3128,14 @@ def replay(chk, data):
         chk.evaluations += 1
         if r is not None:
             report_list(chk, lambda ops: judge_rops(chk, world, ops), r, "rops")
+        chk.extra.pop("_reported", None)
+        return
+    if "whist" in rep:
+        with fullclock(world) as clock:
+            r, _ = judge_wops(chk, world, clock, rep["whist"])
+            chk.evaluations += 1
+            if r is not None:
+                report_whist(chk, world, clock, r)
         chk.extra.pop("_reported", None)
         return
     if "yhist" in rep:
